@@ -100,6 +100,7 @@ def run(ctx):
         ("R19.e", "__next__: StopIteration at the limit, one increment, returns generate(); __iter__ restarts the iteration count only"),
         ("R19.f", "no recirculation: per-job pool re-created per job; chosen machine removed from it"),
         ("R19.h", "the machine list of a flexible operation is drawn without replacement (distinct machine ids)"),
+        ("R19.i", "generating an instance never changes the generator's configuration: outside the constructors only the name counter and the iteration state are written"),
         ("R19.g", "num_jobs jobs of num_machines operations; sizes and durations drawn from the configured ranges"),
     ):
         chk.rule(rid, txt)
@@ -151,6 +152,9 @@ def run(ctx):
 
     # ---------------------------------------------------------------- R19.h
     _distinct_machines(ctx, cro, op_cls)
+
+    # ---------------------------------------------------------------- R19.i
+    _config_is_read_only(ctx, base, cone)
 
     # ---------------------------------------------------------------- R19.b
     _jobs_vs_machines(ctx, generate)
@@ -405,6 +409,38 @@ def _distinct_machines(ctx, cro_raw, op_cls):
         if not bad:
             chk.ok("R19.h", cro.qualname, cro.loc(n), "no with-replacement draw reaches Operation(machines=...)")
     chk.floor("R19.h", n_sites, 1, "Operation constructions in create_random_operation")
+
+
+def _config_is_read_only(ctx, base, cone):
+    """R19.i - the n-th instance must be drawn from the *requested* ranges:
+    a generator method other than a constructor that assigns one of the
+    generator's attributes (besides the counter / iteration state / the RNG
+    object's own evolution) changes what later calls produce."""
+    from ..lifecycle import Lifecycle
+
+    chk = ctx.chk
+    lc = Lifecycle(ctx)
+    allowed = {ROLE["counter"], ROLE["iter"]} - {None}
+    n = 0
+    bad = False
+    for c in cone:
+        for m in c.methods.values():
+            if m.name == "__init__" or m.cls is not c:
+                continue
+            n += 1
+            for w in lc.attr_writes(m, c):
+                if w.fi.name == "__init__" or w.attr in allowed or w.attr in RNG_ATTRS:
+                    continue
+                bad = True
+                chk.violation(
+                    "R19.i", f"{c.qualname}.{m.name}", w.event.node,
+                    f"{m.name} writes the generator's configuration (`{w.text}`): the change persists, so instances generated "
+                    "afterwards are no longer drawn from the requested ranges",
+                    loc=w.loc,
+                )
+                break
+    if not bad:
+        chk.ok("R19.i", base.qualname, "", f"{n} non-constructor methods write only {sorted(allowed)}")
 
 
 def _jobs_vs_machines(ctx, generate_raw):
